@@ -211,7 +211,11 @@ func (m *mstate) runFlow(n *NodeSpec) (string, string) {
 		}
 		last = a
 		next, found := -1, false
-		for _, c := range n.Conns { // the most recent connection for (cur, a) wins
+		conns := n.Conns
+		if m.runIdx > 0 && len(n.LateConns) > 0 {
+			conns = append(append([]Conn(nil), n.Conns...), n.LateConns...)
+		}
+		for _, c := range conns { // the most recent connection for (cur, a) wins
 			if c.From == cur && c.Action == a {
 				next, found = c.To, true
 			}
